@@ -20,8 +20,23 @@ SecByName(st, nm) ==
 \* Context of one verdict: the trace plus, per section, the edited listing and
 \* the byte position of each of its items, computed once (TLC caches LET
 \* definitions, not operator applications).
+\* register_insert_function(name, patch): the function's code is appended to the
+\* text section; its symbol is the function's name and labels its entry
+InsFnItems(t) ==
+  IF "insfn" \notin DOMAIN t \/ t.insfn.name = "" THEN <<>>
+  ELSE LET r == [id |-> 999, u |-> 0, off |-> 0, patch |-> t.insfn.patch]
+       IN  <<Ent(0, t.insfn.name),
+             [BlankItem EXCEPT !.t = "lbl", !.nm = t.insfn.name, !.base = t.insfn.name, !.src = "patch", !.rid = 999, !.k = "start"]>>
+           \o PatchItems(r, <<t.insfn.name>>, "code")
+\* Where the layout puts the new function's byte interval inside the text section
+\* (front or back) is gtirb-layout's choice, not part of any property: observed.
+InsFnInFront(t) ==
+  \E i \in DOMAIN t.post.syms : t.post.syms[i].n = t.insfn.name /\ t.post.syms[i].k = "blk" /\ t.post.syms[i].p = 0
 Ctx(t) ==
-  LET E == [nm \in SecNames(t.pre) |-> Edit(t.pre, t.reqs, Flat(SecByName(t.pre, nm)))]
+  LET E == [nm \in SecNames(t.pre) |->
+              LET body == Edit(t.pre, t.reqs, Flat(SecByName(t.pre, nm)))
+                  fnIt == IF nm = ".text" THEN InsFnItems(t) ELSE <<>>
+              IN  IF fnIt # <<>> /\ InsFnInFront(t) THEN fnIt \o body ELSE body \o fnIt]
   IN  [t |-> t, E |-> E, P |-> [nm \in SecNames(t.pre) |-> PosSeq(E[nm])], reqs |-> t.reqs]
 
 (***************************************************************************)
@@ -180,6 +195,10 @@ C04_InBounds(X) ==
          /\ \A j \in DOMAIN sec.iann : sec.iann[j].ok
          /\ \A j \in DOMAIN sec.blocks : \A k \in DOMAIN sec.blocks[j].ann :
                sec.blocks[j].ann[k].d <= sec.blocks[j].n
+\* a zero-sized block has no bytes, so any byte annotation on it is stale
+C04_NoStaleOnEmpty(X) ==
+  \A i \in DOMAIN X.t.post.secs : \A j \in DOMAIN X.t.post.secs[i].blocks :
+     X.t.post.secs[i].blocks[j].n = 0 => X.t.post.secs[i].blocks[j].ann = <<>>
 \* expressions refer to module symbols by identity; no duplicate names appear
 C04_SymIdentity(X) ==
   /\ \A i \in DOMAIN X.t.post.secs : \A j \in DOMAIN X.t.post.secs[i].blocks :
@@ -234,6 +253,17 @@ ObsEntryFacts(st, nm) ==
   IN  UNION {{[s |-> nm, p |-> sec.blocks[i].p, fn |-> sec.blocks[i].ent[j]] : j \in DOMAIN sec.blocks[i].ent} :
              i \in {k \in DOMAIN sec.blocks : sec.blocks[k].n > 0}}
 C06_Entries(X) == \A nm \in SecNames(X.t.pre) : ExpEntryFacts(X, nm) = ObsEntryFacts(X.t.post, nm)
+\* a function inserted with register_insert_function appears in all three tables
+\* with its symbol as name and entry
+C06_InsertedFunction(X) ==
+  ("insfn" \in DOMAIN X.t /\ X.t.insfn.name # "") =>
+     \E i \in DOMAIN X.t.post.fns :
+        /\ X.t.post.fns[i].name = X.t.insfn.name
+        /\ X.t.post.fns[i].hasb /\ X.t.post.fns[i].hase /\ X.t.post.fns[i].hasn
+        /\ Len(X.t.post.fns[i].entries) = 1
+        /\ \E j \in DOMAIN X.t.post.syms :
+              /\ X.t.post.syms[j].n = X.t.insfn.name /\ X.t.post.syms[j].k = "blk"
+              /\ <<X.t.post.syms[j].s, X.t.post.syms[j].p>> = X.t.post.fns[i].entries[1]
 PreFnNames(X) == {X.t.pre.fns[i].name : i \in DOMAIN X.t.pre.fns}
 ExpLiveFns(X) ==
   {f \in PreFnNames(X) : \E nm \in SecNames(X.t.pre) : \E x \in ExpFnFacts(X, nm) : f \in Range(x.fn)}
